@@ -245,20 +245,35 @@ PROPS['C08'].update({
     ],
 })
 
+# infeasible_elimination itself (the traversal that mutates the tree under its own DFS stack) is under contract since unit pwl_elim
+_ELIM_TEXT = ('infeasible_elimination, FOR EVERY ANSWER of the LP solver, the tolerance test and the repair heuristics (arbitrary oracles): '
+              'none of its panics is reachable - the `expect("node indicies should stay valid while traversing the tree")` of DfsPre::next (no index on the DFS stack ever dangles although forward_if_redundant removes subtrees and splices decisions out during the traversal), '
+              'the unwraps of node_value / parent / polyhedra.last / node_value_mut, the non-empty-witness assertion of phase_inh, the `label should be 0 or 1` panic of PolyhedraGen::next, the dimension panic of intersection_n; '
+              'the loop TERMINATES (every iteration visits a node not visited before); the result is well-formed with the same root; no node is added, every surviving node keeps its affine function (only cached states change) and cached witness lists stay non-empty. '
+              'Invariant (ghost set of visited nodes): stack entries exist, are unvisited and pairwise distinct, hang below visited nodes; visited nodes are closed under parent; nothing visited or waiting hangs below a node cached infeasible; of two siblings on the stack the upper one counts a remaining sibling '
+              '(so n_remaining == 0 means no sibling is waiting when the parent is forwarded). ')
+_ELIM_ASSUME = [
+    'unit pwl_elim: K == 2 (PolyhedraGen::next panics on labels >= 2), arena of at most i32::MAX nodes, input tree well-formed with aff shapes of the tree dimension and non-empty cached witness lists (vals_ok); '
+    'rule N3: `while let Some((data, polyhedra)) = iter.next(&self.tree)` is read as `while let Some(data) = iter.next(&self.tree)` + `let polyhedra = iter.current_polytope()` (PolyhedraGen::next is verified with the pair result replaced by the node data; current_polytope returns the same vector); '
+    'the PerformanceCounter increments are dropped (rule D7) except that `self.tree.num_nodes(node_idx) - 1` is kept as a statement (num_nodes: iterator pipeline, trusted "requires the node, returns >= 1"); `for (label, node) in to_remove` is the index loop; node_value(i) is read as tree_node(i).value (rule N2); '
+    'phase_one (repair heuristic around mirror_points, numeric code) is an ORACLE returning Indeterminate or a non-empty witness list (mirror_points returns Some only with at least one column), its shape assertion (cached witnesses have the polytope dimension) is ASSUMED; '
+    'Polytope::intersection_n (closure pipeline + ndarray::concatenate) is trusted with the precondition "all parts have the given dimension" derived from its panic; phase_inh / phase_two / forward_if_redundant / DfsPre::next / skip_subtree / try_remove_child are used through the contracts proved in units pwl_feasible / pwl_forward / tree_iter / tree_graph; '
+    'PolyhedraGen::next is re-verified here under a structural contract (stack step, shapes of the half-spaces, at least one half-space below the root) that does not need the tree to be unchanged since the previous call',
+]
 PROPS['C04'].update({
     'level': 'other',
-    'units': ['pwl_compose', 'pwl_compose_pruned', 'pwl_ops_tree', 'pwl_reduce', 'pwl_tree', 'pwl_schemas', 'pwl_misc'],
+    'units': ['pwl_compose', 'pwl_compose_pruned', 'pwl_ops_tree', 'pwl_reduce', 'pwl_tree', 'pwl_schemas', 'pwl_misc', 'pwl_elim'],
     'technique': 'Verus contracts: every un-pruned transformation under contract (compose::<false,false> / generic_composition_inplace, reduce, apply_func, add_child_node, update_node, from_aff) preserves Tree::wf and the shape invariant aff_shape_ok as part of its postcondition, and its panics are proved unreachable; bounded replay of operation histories (bc histories) for the LP-dependent transformations and the history quantifier',
     'level_text': ('Mixed. PROVED (Verus, all trees, all arguments satisfying the stated dimension preconditions): AffTree::new / with_capacity (identity tree), add_terminal / add_decision / replace_node (unit pwl_misc), the schema constructors (six activations, argmax, class_characterization: well-formed, one common terminal output dimension), compose::<false,false>, reduce, apply_func / apply_func_at_node, AffTree::add_child_node, update_node and from_aff '
                    'each return a tree with Tree::wf (links mirrored, leaf flag <=> no children, single root, acyclic) and aff_shape_ok (every node function has the tree input dimension, every decision has 1..15 rows with 2^rows <= K), '
                    'and none of their unwrap / assert / index panics is reachable; since each postcondition re-establishes the precondition of the next operation, any history over these operations stays well-formed. '
                    'Also PROVED (unit pwl_compose_pruned): compose::<true,false> / generic_composition_inplace with the pruning schema keeps Tree::wf, aff_shape_ok and one common terminal output dimension and cannot panic FOR EVERY ANSWER PATTERN of the LP-based feasibility oracle '
                    '(is_edge_feasible is left arbitrary except for its root shortcut; ghost map new node -> copied lhs node, the create / skip / keep-last / forward bookkeeping of the children loop is part of the invariant; a pruned child is shown to leave the arena exactly as it was). '
-                   'The same for the four in-place tree operators + - * / (unit pwl_ops_tree, see C07). NOT under contract: infeasible_elimination (LP + iterator that mutates the tree underneath), negation and the tree/affine mixed operators (closures over terminals_mut). '
+                   'The same for the four in-place tree operators + - * / (unit pwl_ops_tree, see C07). Also PROVED (unit pwl_elim, binary trees): ' + _ELIM_TEXT + 'NOT under contract: negation and the tree/affine mixed operators (closures over terminals_mut). '
                    'BOUNDED (bc histories): random operation histories over all transformations from every constructor, well-formedness (incl. common output dimension) and panic freedom after every step.'),
     'design_ref': 'DESIGN.md §4 C04',
     'assumptions': ASSUME_COMMON + ASSUME_SLAB + ASSUME_ND + ASSUME_PWL + ASSUME_BC + ['see C02 (unit pwl_compose) and C08 (unit pwl_reduce) for the rewrite rules and trusted helpers of those units',
-        'unit pwl_compose_pruned: AffTree::is_edge_feasible is used with the contract PROVED on its real body in unit pwl_feasible (root shortcut `parent_idx == 0 ==> true`; the LP layer behind it is an oracle, so any answer otherwise); the receiver has its root at arena index 0 (true for every tree built by the library constructors); Tree::remove_child is used with the contract proved in unit tree_graph MINUS its arena-size precondition (i32 deletion counter): assumed fewer than 2^31 nodes; rule G1 as for C02 with C = FunctionCompositionInfeasible'],
+        'unit pwl_compose_pruned: AffTree::is_edge_feasible is used with the contract PROVED on its real body in unit pwl_feasible (root shortcut `parent_idx == 0 ==> true`; the LP layer behind it is an oracle, so any answer otherwise); the receiver has its root at arena index 0 (true for every tree built by the library constructors); Tree::remove_child is used with the contract proved in unit tree_graph MINUS its arena-size precondition (i32 deletion counter): assumed fewer than 2^31 nodes; rule G1 as for C02 with C = FunctionCompositionInfeasible'] + _ELIM_ASSUME,
 })
 
 PROPS['C01'].update({
@@ -320,15 +335,15 @@ _FEAS_TEXT = ('PROVED on the real branching of is_edge_feasible / phase_two / ph
               '(cached Infeasible state of the node or its parent, or the LP answer Infeasible) - LP Error, Unbounded and Optimal answers with ANY witness, however displaced, never prune; phase_two returns Infeasible iff the LP says Infeasible, Indeterminate on an LP Error, '
               'and caches a witness only after that very point passed `contains` for that very polytope (the LP point or its repaired version); phase_inh only passes on parent witnesses that passed `contains` for the new half-space; edges leaving node 0 are always feasible. ')
 for pid, lvl in (('C11', 'other'), ('C05', 'other'), ('C03', 'other')):
-    PROPS[pid]['units'] = ['pwl_feasible']
+    PROPS[pid]['units'] = ['pwl_feasible'] + (['pwl_elim'] if pid in ('C11', 'C03') else [])
     PROPS[pid]['level'] = lvl
-    PROPS[pid]['assumptions'] = ASSUME_COMMON + ASSUME_SLAB + ASSUME_ND + ASSUME_PWL + PROPS[pid]['assumptions'] + _FEAS_ASSUME
+    PROPS[pid]['assumptions'] = ASSUME_COMMON + ASSUME_SLAB + ASSUME_ND + ASSUME_PWL + PROPS[pid]['assumptions'] + _FEAS_ASSUME + (_ELIM_ASSUME if pid in ('C11', 'C03') else [])
 PROPS['C11']['technique'] = 'Verus contracts on the extracted decision logic around the LP solver (is_edge_feasible, phase_two, phase_inh: faults can only lead to less pruning - for every answer of the LP / tolerance / repair oracles, not only single faults) + bounded fault enumeration (bc faults) with the cfg hook for the tree-level consequences'
-PROPS['C11']['level_text'] = 'Mixed. ' + _FEAS_TEXT + 'This holds for every answer pattern of the oracles, i.e. for any number and kind of LP faults. BOUNDED (bc faults, fault enumeration with the cfg hook): the tree-level consequences through infeasible_elimination / pruned composition - no panic, same function, sound caches, only less pruning - for every single fault position and kind. ' + PROPS['C11']['level_text']
+PROPS['C11']['level_text'] = 'Mixed. ' + _FEAS_TEXT + 'This holds for every answer pattern of the oracles, i.e. for any number and kind of LP faults. Also PROVED at tree level (unit pwl_elim, binary trees): ' + _ELIM_TEXT + 'BOUNDED (bc faults, fault enumeration with the cfg hook): the remaining tree-level consequences through infeasible_elimination / pruned composition - same function, sound caches, only less pruning - for every single fault position and kind. ' + PROPS['C11']['level_text']
 PROPS['C05']['technique'] = 'Verus contracts on the extracted witness-producing functions (phase_two, phase_inh: every cached witness passed `contains` for the polytope it is cached for) + bounded replay (bc prune, bc faults[cache]) of the cache contract on whole trees'
 PROPS['C05']['level_text'] = 'Mixed. ' + _FEAS_TEXT + 'BOUNDED (bc prune / faults): that the polytope handed to these functions is the path polytope of the node (PolyhedraGen part: see C09), infeasible marks only on regions without interior, mirror_points results lie in the polytope. ' + PROPS['C05']['level_text']
 PROPS['C03']['technique'] = 'Verus contracts on the extracted pruning oracle (is_edge_feasible) and LP phase (phase_two): pruning decisions come only from Infeasible verdicts + bounded replay (bc prune) of function preservation through infeasible_elimination and compose::<true,_>'
-PROPS['C03']['level_text'] = 'Mixed. ' + _FEAS_TEXT + 'NOT proved: that removing what these verdicts mark preserves the function (needs the soundness of the LP answer and the simulation argument for the traversal that mutates the tree: bounded). ' + PROPS['C03']['level_text']
+PROPS['C03']['level_text'] = 'Mixed. ' + _FEAS_TEXT + 'Structure PROVED (unit pwl_elim): ' + _ELIM_TEXT + 'NOT proved: that removing what these verdicts mark preserves the function (needs the soundness of the LP answer and the simulation argument for the traversal that mutates the tree: bounded). ' + PROPS['C03']['level_text']
 
 # forward_if_redundant (the splice step of infeasible_elimination) is under contract since unit pwl_forward
 _FWD_ASSUME = [
